@@ -63,20 +63,21 @@ example : pick (["a", "a1", "a2", "a3", "a5", "a6", "a7"].map String.toList) "a"
 example : pick (["a", "a1", "a2", "a4", "a5", "a6", "a7"].map String.toList) "a".toList = "a8".toList := by decide +kernel
 
 /-- every assigned name is a VHDL basic identifier `letter { [_] letter_or_digit }` - whatever the raw names are
-    (holds for the repaired `complete_setup`, fixes/C06-sanitize-names.patch) -/
-theorem C06.assignNames_basic_identifier (d : Design) :
+    (holds for the repaired `complete_setup`; the two substituted spellings `cfg.empty` / `cfg.pre` are inputs
+    read from the compiler, they only have to be identifiers themselves: `goodCfg`) -/
+theorem C06.assignNames_basic_identifier (d : Design) (hcfg : goodCfg d.cfg = true) :
     (∀ n ∈ (assignDesign d).moduleNames, basicId n = true) ∧
     (∀ n ∈ (assignDesign d).entityNames, basicId n = true) ∧
     (∀ n ∈ (assignDesign d).archNames, basicId n = true) ∧
     (∀ p ∈ (assignDesign d).procNames, ∀ n ∈ p, basicId n = true) := by
   refine ⟨?_, ?_, ?_, ?_⟩
-  · exact assignScope_basicId _ _
-  · exact assignScope_basicId _ _
-  · exact assignScope_basicId _ _
+  · exact assignScope_basicId d.cfg hcfg _ _
+  · exact assignScope_basicId d.cfg hcfg _ _
+  · exact assignScope_basicId d.cfg hcfg _ _
   · intro p hp n hn
     simp only [assignDesign, List.mem_map] at hp
     rcases hp with ⟨raws, _, rfl⟩
-    exact assignScope_basicId _ _ n hn
+    exact assignScope_basicId d.cfg hcfg _ _ n hn
 
 example : sanitize "a__b".toList = "a_b".toList ∧ sanitize "_".toList = "unnamed".toList ∧
     sanitize "1x".toList = "n1x".toList ∧ sanitize "x_".toList = "x".toList ∧ sanitize "a b".toList = "a_b".toList := by decide +kernel
@@ -88,29 +89,29 @@ theorem C06.assignNames_injective (d : Design) :
   intro p hp
   simp only [assignDesign, List.mem_map] at hp
   rcases hp with ⟨raws, _, rfl⟩
-  have hm := assignScope_ok d.moduleDecls (moduleUsed d)
-  have he := assignScope_ok d.entityDecls (assignScope (moduleUsed d) d.moduleDecls).2
-  have ha := assignScope_ok d.archDecls
-    ((assignScope (assignScope (moduleUsed d) d.moduleDecls).2 d.entityDecls).2 ++ d.archReserved.map lower)
-  have hpr := assignScope_ok raws (archUsed d)
+  have hm := assignScope_ok d.cfg d.moduleDecls (moduleUsed d)
+  have he := assignScope_ok d.cfg d.entityDecls (assignScope d.cfg (moduleUsed d) d.moduleDecls).2
+  have ha := assignScope_ok d.cfg d.archDecls
+    ((assignScope d.cfg (assignScope d.cfg (moduleUsed d) d.moduleDecls).2 d.entityDecls).2 ++ d.archReserved.map lower)
+  have hpr := assignScope_ok d.cfg raws (archUsed d)
   simp only [visible, assignDesign, List.map_append]
-  have hmE : ∀ x ∈ (assignScope (moduleUsed d) d.moduleDecls).1.map lower,
-      x ∈ (assignScope (moduleUsed d) d.moduleDecls).2 := by
+  have hmE : ∀ x ∈ (assignScope d.cfg (moduleUsed d) d.moduleDecls).1.map lower,
+      x ∈ (assignScope d.cfg (moduleUsed d) d.moduleDecls).2 := by
     intro x hx
     rcases List.mem_map.mp hx with ⟨n, hn, rfl⟩
     exact hm.inUsed n hn
-  have heA : ∀ x ∈ (assignScope (assignScope (moduleUsed d) d.moduleDecls).2 d.entityDecls).1.map lower,
-      x ∈ (assignScope (assignScope (moduleUsed d) d.moduleDecls).2 d.entityDecls).2 := by
+  have heA : ∀ x ∈ (assignScope d.cfg (assignScope d.cfg (moduleUsed d) d.moduleDecls).2 d.entityDecls).1.map lower,
+      x ∈ (assignScope d.cfg (assignScope d.cfg (moduleUsed d) d.moduleDecls).2 d.entityDecls).2 := by
     intro x hx
     rcases List.mem_map.mp hx with ⟨n, hn, rfl⟩
     exact he.inUsed n hn
-  have haP : ∀ x ∈ (assignScope ((assignScope (assignScope (moduleUsed d) d.moduleDecls).2 d.entityDecls).2
+  have haP : ∀ x ∈ (assignScope d.cfg ((assignScope d.cfg (assignScope d.cfg (moduleUsed d) d.moduleDecls).2 d.entityDecls).2
         ++ d.archReserved.map lower) d.archDecls).1.map lower, x ∈ archUsed d := by
     intro x hx
     rcases List.mem_map.mp hx with ⟨n, hn, rfl⟩
     exact ha.inUsed n hn
-  have hfresh : ∀ {used raws : List Name} (ok : ScopeOk used raws (assignScope used raws)),
-      ∀ x ∈ (assignScope used raws).1.map lower, x ∉ used := by
+  have hfresh : ∀ {used raws : List Name} (ok : ScopeOk used raws (assignScope d.cfg used raws)),
+      ∀ x ∈ (assignScope d.cfg used raws).1.map lower, x ∉ used := by
     intro used raws ok x hx
     rcases List.mem_map.mp hx with ⟨n, hn, rfl⟩
     exact ok.fresh n hn
@@ -137,7 +138,9 @@ theorem C06.assignNames_injective (d : Design) :
       · exact heA a h
     · exact haP a h
 
-example : assignDesign ⟨[nm "signal"], [], [nm "E"], [nm "clk", nm "Signal", nm "e"], [], [nm "CLK", nm "e1"], [[nm "clk1"]]⟩ =
+example : goodCfg defaultCfg = true := by decide +kernel
+
+example : assignDesign ⟨defaultCfg, [nm "signal"], [], [nm "E"], [nm "clk", nm "Signal", nm "e"], [], [nm "CLK", nm "e1"], [[nm "clk1"]]⟩ =
     ⟨[nm "E"], [nm "clk", nm "Signal1", nm "e1"], [nm "CLK1", nm "e11"], [[nm "clk11"]]⟩ := by decide +kernel
 
 /-- No assigned name is (case-insensitively) in the reserved set the module scope starts from, nor - inside
@@ -145,15 +148,15 @@ example : assignDesign ⟨[nm "signal"], [], [nm "E"], [nm "clk", nm "Signal", n
 theorem C06.assignNames_avoid_reserved (d : Design) :
     (∀ p ∈ (assignDesign d).procNames, ∀ n ∈ visible (assignDesign d) p, lower n ∉ moduleUsed d) ∧
     (∀ p ∈ (assignDesign d).procNames, ∀ n ∈ (assignDesign d).archNames ++ p, lower n ∉ d.archReserved.map lower) := by
-  have hm := assignScope_ok d.moduleDecls (moduleUsed d)
-  have he := assignScope_ok d.entityDecls (assignScope (moduleUsed d) d.moduleDecls).2
-  have ha := assignScope_ok d.archDecls
-    ((assignScope (assignScope (moduleUsed d) d.moduleDecls).2 d.entityDecls).2 ++ d.archReserved.map lower)
+  have hm := assignScope_ok d.cfg d.moduleDecls (moduleUsed d)
+  have he := assignScope_ok d.cfg d.entityDecls (assignScope d.cfg (moduleUsed d) d.moduleDecls).2
+  have ha := assignScope_ok d.cfg d.archDecls
+    ((assignScope d.cfg (assignScope d.cfg (moduleUsed d) d.moduleDecls).2 d.entityDecls).2 ++ d.archReserved.map lower)
   constructor
   · intro p hp n hn
     simp only [assignDesign, List.mem_map] at hp
     rcases hp with ⟨raws, _, rfl⟩
-    have hpr := assignScope_ok raws (archUsed d)
+    have hpr := assignScope_ok d.cfg raws (archUsed d)
     simp only [visible, assignDesign, List.mem_append] at hn
     intro hin
     rcases hn with ((h | h) | h) | h
@@ -164,7 +167,7 @@ theorem C06.assignNames_avoid_reserved (d : Design) :
   · intro p hp n hn
     simp only [assignDesign, List.mem_map] at hp
     rcases hp with ⟨raws, _, rfl⟩
-    have hpr := assignScope_ok raws (archUsed d)
+    have hpr := assignScope_ok d.cfg raws (archUsed d)
     simp only [assignDesign, List.mem_append] at hn
     intro hin
     rcases hn with h | h
@@ -192,5 +195,5 @@ theorem C06.names_never_reserved_or_predefined (d : Design)
     rw [heq]; exact List.mem_append_left _ (hres w hin))
 
 example : ∃ d : Design, (∀ w ∈ Gen.reserved, w.toList ∈ d.reserved) ∧ (assignDesign d).procNames ≠ [] :=
-  ⟨⟨Gen.reserved.map String.toList, [], [], [], [], [], [[]]⟩,
+  ⟨⟨defaultCfg, Gen.reserved.map String.toList, [], [], [], [], [], [[]]⟩,
    fun w h => List.mem_map.mpr ⟨w, h, rfl⟩, by simp [assignDesign]⟩
